@@ -5,10 +5,10 @@ package dawn
 
 var (
 	vBuildNo     int
-	vExecBuild   = map[string]int{}             // function name -> index of the build of its last successful execution
-	vEvalIn      = map[int]map[string]bool{}    // build index -> names evaluated in it
-	vBodyRanIn   = map[int]map[string]bool{}    // build index -> names whose body ran and failed in it (failure recorded)
-	vPlain       []string                       // plain (not generated) source files of the shape
+	vExecBuild   = map[string]int{}          // function name -> index of the build of its last successful execution
+	vEvalIn      = map[int]map[string]bool{} // build index -> names evaluated in it
+	vBodyRanIn   = map[int]map[string]bool{} // build index -> names whose body ran and failed in it (failure recorded)
+	vPlain       []string                    // plain (not generated) source files of the shape
 	vHasDir      bool
 	vDirEntries  = []string{"d/x.txt", "d/y.txt"}
 	vAllowDry    bool
@@ -18,7 +18,13 @@ var (
 	vAllowBreak  bool
 )
 
+// vConcrete: conformance scenarios start from a concrete tree (every content and token "a")
+var vConcrete bool
+
 func vSymByte(tag string) string {
+	if vConcrete {
+		return "a"
+	}
 	b := vNondetU8(tag)
 	vAssume(b >= 'a' && b <= 'c') // three values: enough for every equality pattern of two or three edits
 	return string([]byte{b})
@@ -188,10 +194,10 @@ func vEdit() {
 }
 
 type vBuildResult struct {
-	target           string
-	opts             *RunOptions
+	target            string
+	opts              *RunOptions
 	loadErr, buildErr error
-	crashed          bool
+	crashed           bool
 }
 
 // vRunBuild performs one load+build of a symbolic target with symbolic flags and failing bodies and
@@ -270,7 +276,6 @@ func vBuildOf(tn string, opts *RunOptions) vBuildResult {
 	}
 	return res
 }
-
 
 // ---------------------------------------------------------------- C01
 
@@ -363,6 +368,9 @@ type vSnap struct {
 }
 
 func vSnapshot() vSnap {
+	if vNative() {
+		return vSnapshotNative()
+	}
 	s := vSnap{records: map[string]targetInfo{}}
 	for _, p := range vOrder {
 		n, ok := vFS[p]
@@ -409,6 +417,15 @@ func vCheckDry(before vSnap) {
 		vAssert(vSameInfo(a, b), "C13: a dry run removed persisted build state")
 	}
 	vReach("dry-run-checked")
+}
+
+// vPrintsPerBody: the lines of output one execution of a body produces: the model body writes one
+// unterminated line; the shell body of a native replay writes two (sh.exec echoes its command).
+func vPrintsPerBody() int {
+	if vNative() {
+		return 2
+	}
+	return 1
 }
 
 // vCheckEvents: per-label event protocol and run-done.
@@ -464,7 +481,7 @@ func vCheckEvents(res vBuildResult) {
 		}
 		vAssert(ok, "C18: a target's events are not one of the allowed sequences")
 		// every body writes one unterminated line: it is delivered exactly once per execution
-		vAssert(prints == body, "C18: a body's output was not delivered exactly once before its completion")
+		vAssert(prints == body*vPrintsPerBody(), "C18: a body's output was not delivered exactly once before its completion")
 		evaluating := len(prot) >= 1 && prot[0] == "evaluating"
 		if _, isFn := vBodies[name]; isFn && l == vLabelOf(vSpec(name)) {
 			if dry {
@@ -501,7 +518,13 @@ func vCollect() {
 	if err != nil {
 		return
 	}
-	vAssert(proj.GC() == nil, "C14: the collection fails")
+	var gcErr error
+	if vNative() {
+		gcErr = vRunGCNative(proj)
+	} else {
+		gcErr = proj.GC()
+	}
+	vAssert(gcErr == nil, "C14: the collection fails")
 	for _, p := range vRemoved {
 		vAssert(len(p) > len(vWork) && p[:len(vWork)+1] == vWork+"/", "C14: the collection removed something outside the build directory")
 	}
